@@ -351,6 +351,35 @@ class CoreDriver:
                     break
         return done
 
+    def run_concurrent(self, scripts, seed, gate_prob=0.3):
+        """Seeded scheduler over several sessions' scripts: backend calls are held at random and released
+        at random, so handlers and workers of different sessions interleave at every backend call.
+        Nothing of any script is dropped; the linearised schedule is returned (replayable with run())."""
+        import random
+        rng = random.Random(seed)
+        todo = {s: list(sc) for s, sc in scripts.items()}
+        done = []
+        while True:
+            held = [s for s, f in self.held.items() if not f.done()]
+            ready = [s for s, sc in todo.items() if sc and s not in held]
+            if not held and not ready:
+                break
+            choices = [("rel", s) for s in held] + [("step", s) for s in ready]
+            kind, s = rng.choice(choices)
+            if kind == "rel":
+                st = ["release", s]
+                if self.step(st):
+                    done.append(st)
+                continue
+            st = todo[s].pop(0)
+            if s not in self.gate_plan and rng.random() < gate_prob:
+                g = ["gate", s, None, 1]
+                self.step(g)
+                done.append(g)
+            if self.step(st):
+                done.append(st)
+        return done
+
     def finish(self):
         """Release every gate (so that nothing stays blocked artificially) and take a last snapshot."""
         for d in (self.held, self.lheld):
